@@ -360,6 +360,14 @@ fn run_e1(rep: &Report) -> i32 {
             if t {
                 deeps.extend(subs(vec![b"abABa".to_vec(), b"aAbBa".to_vec(), b"ABabA".to_vec()], 4, true));
             }
+        } else if t && ["C04", "C16", "C19"].contains(&rep.property.as_str()) {
+            // (these step the noncontiguous NFA, see below: the thorough tier
+            // uses the other properties' quick sets)
+            deeps.push(Deep::Tuples { name: "D4-ab-len3", alpha: b"ab", minlen: 0, maxlen: 3, k: 4, ci: false });
+            deeps.push(Deep::Tuples { name: "D3-ab-len4", alpha: b"ab", minlen: 1, maxlen: 4, k: 3, ci: false });
+            deeps.push(Deep::Tuples { name: "D3-abc-len2", alpha: b"abc", minlen: 0, maxlen: 2, k: 3, ci: false });
+            deeps.extend(subs(e1run::rg_words(4), 4, false));
+            deeps.extend(subs3(e1run::rg_words(4), 3));
         } else if t {
             deeps.push(Deep::Tuples { name: "D4-ab-len4", alpha: b"ab", minlen: 0, maxlen: 4, k: 4, ci: false });
             deeps.push(Deep::Tuples { name: "D3-ab-len5", alpha: b"ab", minlen: 1, maxlen: 5, k: 3, ci: false });
